@@ -1218,6 +1218,40 @@ func c03R3(p *Prog, r *Report) {
 		}
 	}
 	r.Check(okLast, "C03.R3", "the last-seen sequence number is refreshed from the queue's last packet", p.Pos(fn.Pos()), "lastSN = queue[len-1].SequenceNumber()", "the reference for the next gap search is not the last queued packet's sequence number")
+	// the start-up sampling consumes the queued packets (it empties the queue): the reference for
+	// the first gap search must then be set on every successful way out, whatever the packets carry
+	for _, sf := range p.LibFuncs() {
+		if sf == fn || sf.Signature.Recv() == nil || typeName(sf.Signature.Recv().Type()) != "AbacoGroup" {
+			continue
+		}
+		empties := false
+		for _, st := range StoresTo(sf, "AbacoGroup", "queue") {
+			if sl, ok := st.Val.(*ssa.Slice); ok && sl.High != nil {
+				if k, isC := constInt(sl.High); isC && k == 0 {
+					empties = true
+				}
+			}
+		}
+		if !empties || len(StoresTo(sf, "AbacoGroup", "lastSN")) == 0 {
+			continue
+		}
+		r.Fn(FuncName(sf))
+		isRef := func(in ssa.Instruction) bool {
+			st, ok := in.(*ssa.Store)
+			if !ok {
+				return false
+			}
+			_, f, _, okf := FieldOf(st.Addr)
+			return okf && f == "lastSN"
+		}
+		esc := ReachAvoiding(sf, nil, isRef, normalExit(sf))
+		pos := p.Pos(sf.Pos())
+		if len(esc) > 0 {
+			pos = p.InstrPos(esc[0])
+		}
+		r.Check(len(esc) == 0, "C03.R3", FuncName(sf)+": the last-seen sequence number is set whenever the queued packets are consumed", pos, "every successful return has passed the store of lastSN",
+			"a successful return is reachable on which the queue has been consumed but lastSN was not set (it stays 0, or stale): the first gap search then takes every sequence number from there to the first packet of the run as lost and fills the head of every channel with filler, and the dropped-frame report is inflated accordingly")
+	}
 	_ = sort.Strings
 	_ = fmt.Sprint
 }
@@ -1397,9 +1431,38 @@ func c03R6R7(p *Prog, r *Report) {
 		return
 	}
 	r.Fn(FuncName(fn))
+	// a packet's sequence number: the accessor, or a helper of the group that returns the
+	// accessor's value of its packet parameter shifted by the group's offset (both sides of the
+	// comparison are then in the same numbering)
+	snHelperArg := func(c *ssa.Call) (ssa.Value, bool) {
+		h := c.Call.StaticCallee()
+		if !isModuleFn(h) || h.Name() == "SequenceNumber" || len(h.Params) != len(c.Call.Args) || len(h.Blocks) != 1 {
+			return nil, false
+		}
+		var found ssa.Value
+		Instrs(h, func(in ssa.Instruction) {
+			c2, ok := in.(*ssa.Call)
+			if !ok || c2.Call.StaticCallee() == nil || c2.Call.StaticCallee().Name() != "SequenceNumber" || len(c2.Call.Args) == 0 {
+				return
+			}
+			for i, q := range h.Params {
+				if c2.Call.Args[0] == ssa.Value(q) {
+					found = c.Call.Args[i]
+				}
+			}
+		})
+		return found, found != nil
+	}
 	isSN := func(v ssa.Value) bool {
 		c, ok := stripConv(v).(*ssa.Call)
-		return ok && c.Call.StaticCallee() != nil && c.Call.StaticCallee().Name() == "SequenceNumber"
+		if !ok || c.Call.StaticCallee() == nil {
+			return false
+		}
+		if c.Call.StaticCallee().Name() == "SequenceNumber" {
+			return true
+		}
+		_, okh := snHelperArg(c)
+		return okh
 	}
 	isLenQueue := func(v ssa.Value) bool {
 		c, ok := stripConv(v).(*ssa.Call)
@@ -1419,7 +1482,11 @@ func c03R6R7(p *Prog, r *Report) {
 		if c == nil || len(c.Call.Args) == 0 {
 			return nil
 		}
-		if u, ok := c.Call.Args[0].(*ssa.UnOp); ok {
+		pkt := c.Call.Args[0]
+		if a, okh := snHelperArg(c); okh {
+			pkt = a
+		}
+		if u, ok := pkt.(*ssa.UnOp); ok {
 			if ia, ok := u.X.(*ssa.IndexAddr); ok {
 				if _, f, _, okf := FieldOf(ia.X); okf && f == "queue" {
 					return ia.Index
@@ -1511,6 +1578,12 @@ func c03R6R7(p *Prog, r *Report) {
 				// queue = queue[pend:] makes the element just tested the first one (or the queue empty)
 				cut := false
 				if sl, isSl := st.Val.(*ssa.Slice); isSl && pend != nil && sl.Low == pend && sl.High == nil {
+					if _, f, _, okf := FieldOf(sl.X); okf && f == "queue" {
+						cut = true
+					}
+				}
+				// queue = queue[len(queue):] leaves it empty
+				if sl, isSl := st.Val.(*ssa.Slice); isSl && sl.Low != nil && sl.High == nil && isLenQueue(sl.Low) {
 					if _, f, _, okf := FieldOf(sl.X); okf && f == "queue" {
 						cut = true
 					}
